@@ -124,6 +124,20 @@ def run(ctx):
             elif rnd < want:
                 rnd += 1
                 evs.append(graph_event(g))
+    # the SAME graph object queried, edited in place (edges added / removed) and queried again: every query is judged
+    # against the edges the object has at that moment
+    for _ in range(12 if ctx.quick else 300):
+        n = rng.choice([4, 5, 6])
+        g = nx.path_graph(n) if rng.random() < 0.5 else nx.gnp_random_graph(n, 0.4, seed=rng.randrange(2 ** 31))
+        for _k in range(rng.randint(3, 6)):
+            evs.append(graph_event(g))
+            for _j in range(rng.randint(1, 3)):
+                a, b = rng.sample(range(n), 2)
+                if g.has_edge(a, b):
+                    g.remove_edge(a, b)
+                else:
+                    g.add_edge(a, b)
+        evs.append(graph_event(g))
     ctx.extra["big_graph_height_events"] = sum(1 for e in evs if e["n"] >= 6)
     for n in (3, 4):
         pool = [g for g in graphs if g.number_of_nodes() == n]
